@@ -7,8 +7,8 @@ package state
 // The StateDB under test runs over a stub Database/Trie (a plain key/value
 // store that records its content).  Under the engine the suite redirects
 //   crypto/sha3.Keccak256, crypto.Keccak256Hash  -> uninterpreted function
-//   rlp.EncodeToBytes                            -> uninterpreted function of the account fields / of the byte string
-//   bytes.TrimLeft                               -> identity (leaf value = UF of the 32-byte slot value)
+//   rlp.EncodeToBytes                            -> uninterpreted function of the account fields / short-string rule for []byte
+//   bytes.TrimLeft                               -> identity (storage leaf = string encoding of the whole 32-byte value)
 // Natively the real functions run (one admissible interpretation), so every
 // counterexample can be replayed against the real build.
 
@@ -48,7 +48,14 @@ func c09EncodeToBytes(val interface{}) ([]byte, error) {
 	case *stateObject:
 		return vs.UFX("rlpAccount", 40, v.data.Nonce, v.data.Balance, v.data.Root[:], v.data.CodeHash), nil
 	case []byte:
-		return vs.UF("rlpString", 33, v), nil
+		// the RLP string rule for short strings (decided under C11); the real
+		// rlp.Split reads it back on the storage load path
+		if len(v) == 1 && v[0] < 0x80 {
+			return []byte{v[0]}, nil
+		}
+		if len(v) < 56 {
+			return append([]byte{0x80 + byte(len(v))}, v...), nil
+		}
 	}
 	panic("c09EncodeToBytes: unexpected value type")
 }
@@ -262,9 +269,10 @@ type c09Desc struct {
 	nslots int
 }
 
-// c09DescribeAcct: kinds = number of kinds explored (2: absent/clean... see
-// c09KindSets), full = symbolic code and storage.
-func c09DescribeAcct(kinds []int, detailed bool, nslots int, full bool) c09AcctDesc {
+// c09DescribeAcct: kinds = the kinds explored, detailed = symbolic code and
+// storage, variants = also the rarer shapes of a dirty object (no leaf in the
+// account trie yet; still owning its callback).
+func c09DescribeAcct(kinds []int, detailed bool, nslots int, variants bool) c09AcctDesc {
 	var a c09AcctDesc
 	a.kind = kinds[vs.Choice("kind", len(kinds))]
 	a.balance = new(big.Int)
@@ -285,7 +293,7 @@ func c09DescribeAcct(kinds []int, detailed bool, nslots int, full bool) c09AcctD
 		a.root = c09Hash("root")
 		if a.kind == c09Dirty {
 			a.baseLeaf = vs.BytesN("baseLeaf", 4)
-			if full {
+			if variants {
 				if vs.Choice("baseAbsent", 2) == 1 {
 					a.baseLeaf = nil
 				}
@@ -293,7 +301,7 @@ func c09DescribeAcct(kinds []int, detailed bool, nslots int, full bool) c09AcctD
 			}
 		}
 	}
-	if !detailed || (a.kind == c09Deleted && !full) {
+	if !detailed || (a.kind == c09Deleted && !variants) {
 		return a
 	}
 	for i := 0; i < nslots; i++ {
@@ -308,6 +316,29 @@ func c09DescribeAcct(kinds []int, detailed bool, nslots int, full bool) c09AcctD
 			s.value = c09Hash("slotValue")
 			s.base = s.value
 		case 2: // cached and dirty
+			s.cached, s.dirty = true, true
+			s.value = c09Hash("slotValue")
+			s.base = c09Hash("slotBase")
+		}
+	}
+	return a
+}
+
+// c09DescribeAcctStorageOnly adds a symbolic storage description to an account
+// described without detail.
+func c09DescribeAcctStorageOnly(a c09AcctDesc, nslots int) c09AcctDesc {
+	for i := 0; i < nslots; i++ {
+		s := &a.slots[i]
+		n := 3
+		if a.kind == c09Clean {
+			n = 2
+		}
+		switch vs.Choice("slotState", n) {
+		case 1:
+			s.cached = true
+			s.value = c09Hash("slotValue")
+			s.base = s.value
+		case 2:
 			s.cached, s.dirty = true, true
 			s.value = c09Hash("slotValue")
 			s.base = c09Hash("slotBase")
@@ -495,16 +526,15 @@ func c09AssertSameObs(p, q *c09Obs, nslots int, when string) {
 // c09AssertCallbacks: the part of the representation invariant that protects
 // against lost writes - a live object outside the dirty set still owns its
 // onDirty callback (otherwise its next modification is never written).
-func c09AssertCallbacks(s *StateDB, when string) {
-	for _, addr := range c09Addrs {
-		obj := s.stateObjects[addr]
-		_, dirty := s.stateObjectsDirty[addr]
-		if obj == nil {
-			vs.Assert(!dirty, when+": dirty mark without an object")
-			continue
-		}
-		vs.Assert(dirty || obj.onDirty != nil, when+": object outside the dirty set lost its onDirty callback")
+func c09AssertCallbacks(s *StateDB, i int, when string) {
+	addr := c09Addrs[i]
+	obj := s.stateObjects[addr]
+	_, dirty := s.stateObjectsDirty[addr]
+	if obj == nil {
+		vs.Assert(!dirty, when+": dirty mark without an object")
+		return
 	}
+	vs.Assert(dirty || obj.onDirty != nil, when+": object outside the dirty set lost its onDirty callback")
 }
 
 // c09AssertSameContentAt: both StateDBs hold the same account-trie leaf and the
@@ -531,6 +561,38 @@ func c09AssertSameContentAt(a, b *StateDB, i int, when string) {
 		return
 	}
 	vs.Assert(ta.(*c09Trie).same(tb.(*c09Trie)), when+": storage trie content")
+}
+
+// c09AssertMirrors: after Finalise the tries commit to exactly what the
+// accessors report for addr (so a StateDB reopened over this content reads back
+// identically): the account leaf is the encoding of (nonce, balance, hash of
+// the storage content, code hash) of a live account and absent otherwise; the
+// storage trie holds exactly the non-zero slot values.
+func c09AssertMirrors(s *StateDB, i int, nslots int, when string) {
+	addr := c09Addrs[i]
+	leaf, present := s.trie.(*c09Trie).content[string(addr[:])]
+	exist := s.Exist(addr)
+	vs.Assert(present == exist, when+": account trie holds a leaf iff the account exists")
+	if !exist || !present {
+		return
+	}
+	obj := s.getStateObject(addr)
+	var st *c09Trie
+	if obj.trie != nil {
+		st = obj.trie.(*c09Trie)
+	} else {
+		st = c09NewTrie(s.db.(*c09DB).slots)
+	}
+	for k := 0; k < nslots; k++ {
+		v := s.GetState(addr, c09Slots[k])
+		l, ok := st.content[string(c09Slots[k][:])]
+		vs.Assert(ok == (v != (common.Hash{})), when+": storage trie holds a leaf iff the slot is non-zero")
+		if ok && v != (common.Hash{}) {
+			vs.Assert(bytes.Equal(l, c09Leaf(v)), when+": storage leaf encodes GetState")
+		}
+	}
+	want := &stateObject{data: Account{Nonce: s.GetNonce(addr), Balance: s.GetBalance(addr), Root: st.Hash(), CodeHash: s.GetCodeHash(addr).Bytes()}}
+	vs.Assert(bytes.Equal(leaf, c09AccountLeaf(want)), when+": account leaf encodes the observable account")
 }
 
 // ---------------------------------------------------------------------------
@@ -654,29 +716,30 @@ type c09Run struct {
 	ops         []*c09Op
 	deleteEmpty bool
 	nslots      int
+	mslots      int // slots described in the pre-state of the target account
 }
 
 func c09RevertScenario(xKinds, yKinds []int, nested bool) *c09Run {
 	r := &c09Run{nslots: vs.Param("slots")}
-	full := vs.Param("full") == 1
+	variants := vs.Param("variants") == 1
 	r.deleteEmpty = vs.Choice("deleteEmpty", 2) == 1
 	op := vs.Choice("op", vs.Param("ops1"))
 	// the ripemd address differs from any other address only on the touch path
 	// of AddBalance; the quick tier targets it only there
 	xi := 0
-	if full || op == c09OpAddBalance {
+	if vs.Param("targets") == 2 || op == c09OpAddBalance {
 		xi = vs.Choice("target", 2)
 	}
-	// storage is only looked at by SetState and by the operations replacing the object
+	// storage is only looked at by SetState and by the operations replacing or removing the object
 	xslots := 0
-	if full || op == c09OpSetState || op == c09OpCreateAccount {
+	if op == c09OpSetState || op == c09OpCreateAccount || op == c09OpSuicide {
 		xslots = r.nslots
 	}
 	op1 := c09ChooseOp(op, xi, r.nslots)
 	var op2 *c09Op
 	if nested {
 		xi2 := xi
-		if full {
+		if vs.Param("targets") == 2 {
 			xi2 = vs.Choice("target2", 2)
 		}
 		op2 = c09ChooseOp(vs.Choice("op", vs.Param("ops2")), xi2, r.nslots)
@@ -684,12 +747,10 @@ func c09RevertScenario(xKinds, yKinds []int, nested bool) *c09Run {
 			xslots = r.nslots
 		}
 	}
+	r.mslots = xslots
 	d := &c09Desc{nslots: r.nslots}
-	d.accts[xi] = c09DescribeAcct(xKinds, true, xslots, full)
-	if !full {
-		yKinds = yKinds[:1] // quick tier: the other account is absent
-	}
-	d.accts[1-xi] = c09DescribeAcct(yKinds, false, 0, full)
+	d.accts[xi] = c09DescribeAcct(xKinds, true, xslots, variants)
+	d.accts[1-xi] = c09DescribeAcct(yKinds[:vs.Param("ykinds")], false, 0, false)
 	d.refund = vs.U64("refund")
 	if op1.op == c09OpAddLog || (nested && op2.op == c09OpAddLog) {
 		d.nlogs = vs.Choice("nlogs", 2)
@@ -771,7 +832,7 @@ func VerifC09_RevertNested() {
 // produces the content of op3; Finalise.
 func VerifC09_RevertThenWrite() {
 	kinds := c09LiveKinds
-	if vs.Param("full") == 1 {
+	if vs.Param("allkinds") == 1 {
 		kinds = c09AllKinds
 	}
 	r := c09RevertScenario(kinds, []int{c09Absent}, false)
@@ -803,6 +864,12 @@ func c09RevertCheck(r *c09Run, cont *c09Op) {
 		}
 		c09AssertSameContentAt(a, b, i, "Finalise after revert vs Finalise of the pre-state")
 	}
+	for i := range c09Addrs {
+		if (r.deleteEmpty && r.d.accts[i].isEmpty && (dirty[i] || ripemd[i])) || (cont != nil && touch[i]) {
+			continue
+		}
+		c09AssertMirrors(a, i, r.mslots, "after Finalise")
+	}
 	for _, i := range late {
 		// Known findings: a reverted mutation leaves a clean account in
 		// stateObjectsDirty, so Finalise(true) deletes it if it is empty; the undo of
@@ -823,6 +890,135 @@ func c09RevertCheck(r *c09Run, cont *c09Op) {
 
 	// (2) lost-write protection.  Known finding: the undo of a touch removes the
 	// dirty mark but does not give the object its onDirty callback back.
-	vs.Known(c09KnownTouch, touch[0] || touch[1])
-	c09AssertCallbacks(a, "after revert")
+	for i := range c09Addrs {
+		if !touch[i] {
+			c09AssertCallbacks(a, i, "after revert")
+		}
+	}
+	for i := range c09Addrs {
+		if touch[i] {
+			vs.Known(c09KnownTouch, true)
+			c09AssertCallbacks(a, i, "after revert")
+		}
+	}
+}
+
+// ---------------------------------------------------------------------------
+// history independence
+
+// c09Pairs: pairs of writes whose effects commute by specification (different
+// accounts, different fields, different slots, or additive on the same balance).
+func c09Pair(k int, nslots int) (*c09Op, *c09Op) {
+	mk := func(op, ai int) *c09Op {
+		o := &c09Op{op: op, ai: ai, addr: c09Addrs[ai], amount: new(big.Int)}
+		switch op {
+		case c09OpAddBalance, c09OpSubBalance:
+			o.amount = vs.BigU("amount", 256)
+		case c09OpSetNonce:
+			o.nonce = vs.U64("opNonce")
+		case c09OpSetState:
+			o.value = c09Hash("opValue")
+		case c09OpSetCode:
+			o.code = vs.Bytes("opCode", 1)
+		}
+		return o
+	}
+	switch k {
+	case 0: // two credits of one account
+		return mk(c09OpAddBalance, 0), mk(c09OpAddBalance, 0)
+	case 1: // credit and nonce of one account
+		return mk(c09OpAddBalance, 0), mk(c09OpSetNonce, 0)
+	case 2: // two different slots of one account
+		p, q := mk(c09OpSetState, 0), mk(c09OpSetState, 0)
+		p.slot, q.slot = c09Slot0, c09Slot1
+		return p, q
+	case 3: // slot and balance of one account
+		p := mk(c09OpSetState, 0)
+		p.slot = c09Slot0
+		return p, mk(c09OpAddBalance, 0)
+	case 4: // transfer: debit one account, credit the other
+		return mk(c09OpSubBalance, 0), mk(c09OpAddBalance, 1)
+	case 5: // code and nonce of one account
+		return mk(c09OpSetCode, 0), mk(c09OpSetNonce, 0)
+	case 6: // slot of one account, nonce of the other
+		p := mk(c09OpSetState, 0)
+		p.slot = c09Slot0
+		return p, mk(c09OpSetNonce, 1)
+	}
+	// self-destruct of one account, credit of the other
+	return mk(c09OpSuicide, 0), mk(c09OpAddBalance, 1)
+}
+
+const c09NumPairs = 8
+
+// VerifC09_OrderCopy: two orders of the same commuting writes give the same
+// observables and, after Finalise, the same trie content, which mirrors the
+// observables (so reopening reads back identically); Copy reads back
+// identically and finalises to the same content.
+func VerifC09_OrderCopy() {
+	nslots := vs.Param("slots")
+	deleteEmpty := vs.Choice("deleteEmpty", 2) == 1
+	pair := vs.Param("pair0") + vs.Choice("pair", vs.Param("pairs"))
+	o1, o2 := c09Pair(pair, nslots)
+	full := vs.Param("full") == 1
+	xslots := 0
+	if o1.op == c09OpSetState {
+		xslots = 1 // the pairs write slot 0 ...
+		if full || o2.op == c09OpSetState {
+			xslots = nslots // ... and slot 1
+		}
+	}
+	d := &c09Desc{nslots: nslots}
+	// quick tier: the code of the pre-state account is symbolic only where code is written
+	d.accts[0] = c09DescribeAcct(c09LiveKinds, full || o1.op == c09OpSetCode, xslots, false)
+	if !full && o1.op == c09OpSetState {
+		// describe the storage although the code is not: re-describe with detail
+		d.accts[0] = c09DescribeAcctStorageOnly(d.accts[0], xslots)
+	}
+	if o2.ai == 1 {
+		d.accts[1] = c09DescribeAcct(c09LightKinds, false, 0, false)
+	}
+	d.refund = vs.U64("refund")
+	a := c09Build(d, deleteEmpty)
+	b := c09Build(d, deleteEmpty)
+	o1.apply(a)
+	o2.apply(a)
+	o2.apply(b)
+	o1.apply(b)
+	oa := c09Observe(a, xslots)
+	c09AssertSameObs(oa, c09Observe(b, xslots), xslots, "two orders")
+	vs.Observe("balanceA", oa.accts[0].balance)
+	vs.Observe("nonceA", oa.accts[0].nonce)
+
+	// Copy carries every dirty object; clean ones are re-read from the copied trie
+	// (the reflective account decoder on that path is outside the engine: checked
+	// when every live account is dirty)
+	allDirty := true
+	for _, addr := range c09Addrs {
+		if obj := a.stateObjects[addr]; obj != nil {
+			if _, dirty := a.stateObjectsDirty[addr]; !dirty {
+				allDirty = false
+			}
+		}
+	}
+	var c *StateDB
+	if allDirty {
+		vs.Reach("copy")
+		c = a.Copy()
+		c09AssertSameObs(oa, c09Observe(c, xslots), xslots, "Copy")
+	}
+
+	a.Finalise(deleteEmpty)
+	b.Finalise(deleteEmpty)
+	for i := range c09Addrs {
+		c09AssertSameContentAt(a, b, i, "two orders, after Finalise")
+		c09AssertMirrors(a, i, xslots, "after Finalise")
+	}
+	if c != nil {
+		c.Finalise(deleteEmpty)
+		for i := range c09Addrs {
+			c09AssertSameContentAt(a, c, i, "Copy, after Finalise")
+		}
+		c09AssertSameObs(c09Observe(a, xslots), c09Observe(c, xslots), xslots, "Copy, after Finalise")
+	}
 }
